@@ -569,6 +569,9 @@ func checkC07WS(c *Ctx, sw *ScopeWS, jsonCfg string, tag string) {
 							}
 						}
 						rc := "some-read-plain"
+						if isResolverClass(lineFeatures(f.Src, w.Tok) + "|" + occClass(f, w)) {
+							rc = "write-in-resolver-trigger-class"
+						}
 						if allTrig {
 							rc = "all-reads-in-resolver-trigger-classes"
 						}
